@@ -1553,6 +1553,15 @@ def r03_9(ctx, counts) -> RuleResult:
                                 guarded_float = True
             if guarded_float:
                 continue
+            # float(<Decimal>) never raises (it saturates to inf): a conversion inside
+            # `if isinstance(x, Decimal):` is not an overflow site
+            if what == 'float()' and any(
+                    isinstance(enc, ast.If) and any(
+                        isinstance(t, ast.Call) and dotted(t.func) == 'isinstance' and len(t.args) == 2
+                        and isinstance(t.args[0], ast.Name) and {t.args[0].id} == names
+                        and stmt_text(t.args[1]).split('.')[-1] == 'Decimal'
+                        for t in ast.walk(enc.test)) for enc in emap[id(n)]):
+                continue
             n_ops += 1
             caught = False
             for enc in emap[id(n)]:
@@ -2146,6 +2155,80 @@ def r03_16(ctx, counts) -> RuleResult:
     return res
 
 
+def r03_17(ctx, counts) -> RuleResult:
+    """Decimal %, // and ** can raise decimal.InvalidOperation"""
+    from ..engine.dataflow import branch_facts
+    model: Model = ctx.model
+    res = RuleResult(
+        'R03.17', 'DECIMAL-OPERATOR-CAN-FAIL',
+        'On decimal.Decimal operands `%` and `//` raise InvalidOperation (DivisionImpossible) as '
+        'soon as the integer quotient has more digits than the context precision, and `**` '
+        'raises it for 0 ** 0 and for a negative base with a fractional exponent. In the '
+        'evaluate functions of fn:avg, fn:sum and math:pow (aggregates and powers over values '
+        'that may be xs:decimal) every such operator is under a handler for '
+        'InvalidOperation/ArithmeticError, or its operands are established not to be Decimal: a '
+        'branch fact `all(isinstance(x, int) …)`/`isinstance(n, (int, float))`, or a preceding '
+        '`if isinstance(n, Decimal): n = float(n)` promotion of the operand.')
+    funcs: dict[FuncInfo, set[str]] = {}
+    for rec in ctx.reg.all_records():
+        if rec.symbol in ('avg', 'sum', 'pow'):
+            ref = rec.method('evaluate')
+            if ref is not None and ref.func is not None and ref.origin != 'class':
+                funcs.setdefault(ref.func, set()).add(rec.symbol)
+    if len(funcs) < 3:
+        raise AnalysisError(f'avg/sum/pow functions located: {len(funcs)} < 3')
+    arith = {'InvalidOperation', 'DecimalException', 'ArithmeticError', 'Exception'}
+    n = 0
+    for f, syms in sorted(funcs.items(), key=lambda kv: kv[0].key):
+        cfg = CFG(f.node)
+        facts = branch_facts(cfg)
+        emap = enclosing_map(f.node)
+        promoted = set()
+        for st in walk_local(f.node):
+            if isinstance(st, ast.If) and 'isinstance(' in stmt_text(st.test) \
+                    and 'Decimal' in stmt_text(st.test):
+                for b in st.body:
+                    if isinstance(b, ast.Assign) and isinstance(b.targets[0], ast.Name) \
+                            and isinstance(b.value, ast.Call) and dotted(b.value.func) == 'float':
+                        promoted.add(b.targets[0].id)
+        for nd in cfg.nodes:
+            if nd.ast is None or nd.kind not in ('stmt', 'test'):
+                continue
+            root = nd.ast.test if isinstance(nd.ast, (ast.If, ast.While)) else nd.ast
+            for x in ast.walk(root):
+                if not (isinstance(x, ast.BinOp) and isinstance(x.op, (ast.Mod, ast.FloorDiv, ast.Pow))):
+                    continue
+                if isinstance(x.left, ast.Constant) and isinstance(x.left.value, str):
+                    continue        # string formatting
+                names = {y.id for y in ast.walk(x) if isinstance(y, ast.Name)}
+                n += 1
+                covered = False
+                for enc in emap.get(id(x), []):
+                    if isinstance(enc, ast.Try) and any(any(y is x for y in ast.walk(b))
+                                                        for b in enc.body):
+                        for h in enc.handlers:
+                            if {nm.split('.')[-1] for nm in handler_names(model, f.module, h)} & arith:
+                                covered = True
+                fs = facts[nd.id]
+                not_decimal = all(nm in promoted for nm in names if nm not in ('len',)) and bool(names) \
+                    or any(fa.startswith('+all(') and 'isinstance(' in fa and ', int)' in fa for fa in fs)
+                res.instances.append(f'{f.key} [{"/".join(sorted(syms))}]: `{stmt_text(x)[:40]}` '
+                                     f'handler={covered} operands not Decimal={not_decimal}')
+                if covered or not_decimal:
+                    res.ok()
+                else:
+                    res.fail(finding('R03.17', f, x, f'{stmt_text(x)[:30]} on possible decimals',
+                                     f'`{stmt_text(x)[:50]}` can be applied to xs:decimal values '
+                                     f'outside any handler for decimal.InvalidOperation: '
+                                     f'avg(xs:integer("99999999999999999999999999999999")) and '
+                                     f'math:pow(xs:decimal("0"), xs:decimal("0")) escape as bare '
+                                     f'decimal errors'))
+    counts['decimal_operator_sites'] = n
+    if n < 2:
+        raise AnalysisError(f'only {n} %, // or ** operators located in avg/sum/pow')
+    return res
+
+
 def run(ctx) -> dict:
     counts: dict[str, int] = {}
     results = [r03_1(ctx, counts), r03_2(ctx, counts), r03_3(ctx, counts), r03_4(ctx, counts),
@@ -2153,7 +2236,7 @@ def run(ctx) -> dict:
                r03_8(ctx, counts), r03_9(ctx, counts), r03_10(ctx, counts),
                r03_11(ctx, counts), r03_12(ctx, counts), r03_13(ctx, counts),
                r03_14(ctx, counts), r03_15(ctx, counts),
-               r03_16(ctx, counts)]
+               r03_16(ctx, counts), r03_17(ctx, counts)]
     # "no call hangs": the lock discipline of C19 is a necessary condition (a lock left held on
     # an error path blocks every later evaluation that needs it)
     from . import c19_global
